@@ -160,6 +160,16 @@ Theorem C06_source_attempt_is_model : forall (rg : RG) (rp : RP) rc sp k max n s
 Proof. exact gen_retry_exec_iteration_is_model. Qed.
 Print Assumptions C06_source_attempt_is_model.
 
+(** the polling loop READ FROM THE SOURCE (pypyr/utils/poll.py::while_until_true): the attempt
+    counter starts at 1; no sleep after success; after a failed attempt the back-off duration of
+    THAT attempt number is slept — unless max attempts are used up, in which case the loop ends
+    without sleeping; max of None or 0 means unbounded.  It is the model's [poll]. *)
+Theorem C06_source_poll_is_model : forall iter (interval : nat -> option Q) max fuel c s,
+  gen_sleep_looper iter true (fun i => interval (Z.to_nat i)) c max fuel s
+  = poll fuel iter interval max 0 s.
+Proof. exact gen_sleep_looper_is_model. Qed.
+Print Assumptions C06_source_poll_is_model.
+
 (** * Non-vacuity: fails while retryCounter < 3, linear back-off 1/2 capped at 3/4 *)
 Definition lib6 : library :=
   [("main", [("steps", Some [
